@@ -50,6 +50,9 @@ type Fabric struct {
 	ConnectFaults []string
 	// DeliverFaults lists the non-plain outcomes of a deliver event.
 	DeliverFaults []string
+	// StalledPairs: writes from the first to the second node ("B>S") block until
+	// their deadline or a reset; Heal does not release them.
+	StalledPairs map[string]bool
 }
 
 type pendingNotify struct {
@@ -506,10 +509,27 @@ func (e *writeEnd) Write(b []byte) (int, error) {
 	f.mu.Lock()
 	part := f.Partition[pairKey(s.from.name, s.to.name)]
 	outs := append([]string{"ok"}, f.SendFaults...)
+	stalledPair := f.StalledPairs[s.from.name+">"+s.to.name]
 	f.mu.Unlock()
 	o := f.w.Park("send", "send|"+s.id, outs...)
 	if part && o == "ok" {
 		o = "fail"
+	}
+	if stalledPair && o == "ok" {
+		f.w.Probe("send-stalled-for-good")
+		var timer <-chan time.Time
+		if !dl.IsZero() {
+			t := time.NewTimer(time.Until(dl))
+			defer t.Stop()
+			timer = t.C
+		}
+		select {
+		case <-timer:
+			f.w.Effect("send %s timed out", s.id)
+			return 0, timeoutErr{}
+		case <-s.resetCh:
+			return 0, network.ErrReset
+		}
 	}
 	cp := append([]byte(nil), b...)
 	switch o {
@@ -624,6 +644,13 @@ func (e *readEnd) Read(p []byte) (int, error) {
 		}
 		dl := s.rdeadline
 		s.mu.Unlock()
+		s.f.mu.Lock()
+		if s.f.StalledPairs[s.from.name+">"+s.to.name] {
+			// the far end of a stalled connection is not reading at all, so it does
+			// not time the stream out either
+			dl = time.Time{}
+		}
+		s.f.mu.Unlock()
 		if dl.IsZero() {
 			select {
 			case <-s.wake:
